@@ -1666,11 +1666,11 @@ Section All.
   Proof. eexists. split; [reflexivity|]. split; reflexivity. Qed.
 
   Lemma Ev_prelude1 (c : bool) x body σ :
-    (body = call (Name "__import__") [cstr x] \/ NamedExpr x body = preset_iter_wrapper) ->
+    ((exists lib, body = call (Name "__import__") [cstr lib]) \/ NamedExpr x body = preset_iter_wrapper) ->
     exists σ', EvSeq orc (if c then [NamedExpr x body] else []) σ σ' /\ s_tr σ' = s_tr σ /\ s_pos σ' = s_pos σ.
   Proof.
     intros Hb. destruct c; [|exists σ; split; [apply ES_nil|auto]].
-    destruct Hb as [->|Hb].
+    destruct Hb as [[lib ->]|Hb].
     - exists (setv σ x VNone). split; [eapply EvSeq_one; exists 3; reflexivity|auto].
     - rewrite Hb. eexists. split; [eapply EvSeq_one; exists 3; vm_compute; reflexivity|auto].
   Qed.
@@ -1712,8 +1712,8 @@ Section All.
     set (c0 := mkCtx g [] false) in *.
     match goal with |- context [wrap cfg0 ((if ?c1 then _ else _) ++ (if ?c2 then _ else _) ++ (if ?c3 then _ else _) ++ es)] =>
       destruct (Ev_prelude1 c1 "__ol_iter_wrapper" _ (mkSt [] [] 0) (or_intror eq_refl)) as [σ1 [E1 [T1 P1]]];
-      destruct (Ev_prelude1 c2 "importlib" _ σ1 (or_introl eq_refl)) as [σ2 [E2 [T2 P2]]];
-      destruct (Ev_prelude1 c3 "itertools" _ σ2 (or_introl eq_refl)) as [σp [E3 [T3 P3]]]
+      destruct (Ev_prelude1 c2 "__ol_importlib" _ σ1 (or_introl (ex_intro _ "importlib" eq_refl))) as [σ2 [E2 [T2 P2]]];
+      destruct (Ev_prelude1 c3 "__ol_itertools" _ σ2 (or_introl (ex_intro _ "itertools" eq_refl))) as [σp [E3 [T3 P3]]]
     end.
     assert (Hwf' : wf_block (il c0) (ifn c0) b = true) by (unfold il, ifn; subst c0; cbn [c_loops c_nsp]; rewrite Hk; exact Hwf).
     assert (PreB : Pre c0 [] b (mkSst [] 0) σp).
@@ -1805,8 +1805,8 @@ Section FunctionSim.
     (* the prelude *)
     match goal with |- context [wrap cfg0 ((if ?c1 then _ else _) ++ (if ?c2 then _ else _) ++ (if ?c3 then _ else _) ++ _)] =>
       destruct (Ev_prelude1 orc c1 "__ol_iter_wrapper" _ (mkSt [] [] 0) (or_intror eq_refl)) as [σa [E1 [T1 P1]]];
-      destruct (Ev_prelude1 orc c2 "importlib" _ σa (or_introl eq_refl)) as [σb [E2 [T2 P2]]];
-      destruct (Ev_prelude1 orc c3 "itertools" _ σb (or_introl eq_refl)) as [σp [E3 [T3 P3]]]
+      destruct (Ev_prelude1 orc c2 "__ol_importlib" _ σa (or_introl (ex_intro _ "importlib" eq_refl))) as [σb [E2 [T2 P2]]];
+      destruct (Ev_prelude1 orc c3 "__ol_itertools" _ σb (or_introl (ex_intro _ "itertools" eq_refl))) as [σp [E3 [T3 P3]]]
     end.
     assert (Tp : s_tr σp = []) by (rewrite T3, T2, T1; reflexivity).
     assert (Pp : s_pos σp = 0) by (rewrite P3, P2, P1; reflexivity).
